@@ -115,10 +115,18 @@ func (s *ftpService) SetChannel(c pushers.Channel) {
 
 func (s *ftpService) Handle(ctx context.Context, conn net.Conn) error {
 
-	ftpConn := s.server.newConn(conn, s.driver, s.recv)
+	// one command channel per connection: a channel shared by all connections lets the
+	// event pump of an earlier connection report this connection's commands as its own
+	recv := make(chan string)
+
+	ftpConn := s.server.newConn(conn, s.driver, recv)
+
+	done := make(chan struct{})
 
 	go func() {
-		for msg := range s.recv {
+		defer close(done)
+
+		for msg := range recv {
 			s.c.Send(event.New(
 				services.EventOptions,
 				event.Category("ftp"),
@@ -131,6 +139,10 @@ func (s *ftpService) Handle(ctx context.Context, conn net.Conn) error {
 	}()
 
 	ftpConn.Serve()
+
+	// stop the event pump once the connection is finished
+	close(recv)
+	<-done
 
 	return nil
 }
